@@ -282,6 +282,16 @@ func (e *Enc) assumeLoaded(st *State, v Val) {
 			b, o, l, c := v.Sub[0].T, v.Sub[1].T, v.Sub[2].T, v.Sub[3].T
 			e.assume(fmt.Sprintf("(and (<= 0 %s) (< %s %s) (<= 0 %s) (<= 0 %s) (<= %s %s) (<= (+ %s %s) 281474976710656) (=> (= %s 0) (= %s 0)))", b, b, st.next, o, l, l, c, o, c, b, c))
 		case KIface:
+			if n, ok := v.Sh.T.(*types.Named); ok {
+				if it, ok := n.Underlying().(*types.Interface); ok && n.Obj().Pkg() != nil && n.Obj().Pkg().Path() == repoPkgPath && !e.w.openInterface(it) {
+					// sealed interface: only the package's own types implement it
+					cs := []string{fmt.Sprintf("(= %s 0)", v.Sub[0].T)}
+					for _, tg := range e.w.implementers(it) {
+						cs = append(cs, fmt.Sprintf("(= %s %d)", v.Sub[0].T, tg))
+					}
+					e.assume(or(cs...))
+				}
+			}
 			e.assume(fmt.Sprintf("(and (<= 0 %s) (=> (= %s 0) (= %s 0)) (=> (isptrtype %s) (and (<= 0 %s) (< %s %s))))", v.Sub[0].T, v.Sub[0].T, v.Sub[1].T, v.Sub[0].T, v.Sub[1].T, v.Sub[1].T, st.next))
 		case KStruct, KTuple:
 			for _, s := range v.Sub {
@@ -592,7 +602,7 @@ func unsupported(msg string) unsupportedErr { return unsupportedErr{msg} }
 // that already existed at function entry, in the entry state. (Objects under
 // construction in this function are not covered.)
 func (e *Enc) assumeTypeInv(v Val, elem types.Type) {
-	if e.entry == nil || e.invDepth > 2 || e.inQuant > 0 || v.Loc != nil {
+	if e.entry == nil || e.invDepth > 1 || e.inQuant > 0 || v.Loc != nil {
 		return
 	}
 	n, ok := elem.(*types.Named)
@@ -611,9 +621,13 @@ func (e *Enc) assumeTypeInv(v Val, elem types.Type) {
 	e.invDepth++
 	defer func() { e.invDepth-- }()
 	env := &SpecEnv{vars: map[string]Val{"self": v}, st: e.entry}
+	// everything assumed while reading the object's fields in the entry state only holds if the object existed then
+	saveReach := e.curReach
+	e.curReach = and(saveReach, fmt.Sprintf("(not (= %s 0))", v.T), fmt.Sprintf("(< %s next0)", v.T))
 	for _, c := range invs {
-		t := e.safeEvalBool(c, env)
-		e.assume(fmt.Sprintf("(=> (and (not (= %s 0)) (< %s next0)) %s)", v.T, v.T, t))
+		t := e.safeEvalHyp(c, env)
+		e.assume(t)
 		e.usedTypeInvs[n.Obj().Name()+": "+c.Text] = true
 	}
+	e.curReach = saveReach
 }
